@@ -1072,3 +1072,172 @@ def construct_callees():
     c[ModelInitApply.key] = ModelInitApply()
     c[gate.AssertValidCovariance.key] = gate.AssertValidCovariance()
     return c
+
+
+# ------------------------------------------------------------------------------------------------
+# _construct_sensors: per-sensor noise containers and flattened sensor-Jacobian programs
+
+
+class SensorModelInitApply(Contract):
+    """Caller-side form of SensorModelInit (clauses proved there)."""
+
+    key = "formak.python:SensorModel.__init__"
+
+    def apply(self, I, args, kwargs):
+        from pvc.symtheory import card_f
+
+        obj = args[0]
+        ui, sm, cm, config = kwargs["state_model"], kwargs["sensor_model"], kwargs["calibration_map"], kwargs["config"]
+        S, Cal = ui.fields["state"], ui.fields["calibration"]
+        AS, ACal = S.sorted_seq(), Cal.sorted_seq()
+        sk = sm.sorted_key_fn(I.path)
+        readings = SSeq(SInt(sm.n), lambda i: StrV(sk(i)), "readings")
+        readings.pvc_type = "list"
+        arglist = AS.concat(ACal)
+        arglist.pvc_type = "list"
+        exprs = SSeq(SInt(sm.n), lambda i: ExprV(sm.get(sk(i))), "sensor_stmts")
+        obj.fields.update(
+            {
+                "readings": readings,
+                "sensor_models": sm,
+                "sensor_size": SInt(sm.n),
+                "state_size": SInt(card_f(S.term)),
+                "calibration_size": SInt(card_f(Cal.term)),
+                "arglist_state": AS,
+                "arglist_calibration": ACal,
+                "arglist": arglist,
+                "Reading": common.make_named_class(I, "vector", "Reading", readings),
+                "ReadingCovariance": common.make_named_class(I, "covariance", "ReadingCovariance", readings),
+                "_impl": make_block(I, arglist, exprs, "sensor_block"),
+            }
+        )
+        return None
+
+
+class FromDictApply(Contract):
+    """Caller-side form of from_dict (clauses proved in C13.py.from_dict): string-keyed mapping."""
+
+    key = "formak.common:_NamedArrayBase.from_dict"
+
+    def apply(self, I, args, kwargs):
+        cls, mp = args[0], args[1]
+        which, name, arglist = common.class_closure_vars(cls)
+        n = common.arglist_len(arglist)
+        if mp.key_sort != Str:
+            raise Unsupported("from_dict of a symbol-keyed mapping at a call site")
+        nm = lambda i: common.arg_name_z(I, arglist, i)
+        k = z3.Const(I.path.names.fresh("fk"), Str)
+        j = z3.Int(I.path.names.fresh("fj"))
+        unknown = z3.Exists([k], z3.And(mp.has(k), z3.ForAll([j], z3.Implies(z3.And(j >= 0, j < n), nm(j) != k))))
+        I.raise_if(unknown, "TypeError")
+        cols = z3.IntVal(1) if which == "vector" else n
+
+        def cells(r, c):
+            slot = (c == 0) if which == "vector" else (c == r)
+            default = z3.RealVal(0) if which == "vector" else z3.If(r == c, z3.RealVal(1), z3.RealVal(0))
+            return z3.If(z3.And(slot, mp.has(nm(r))), mp.get(nm(r)), default)
+
+        data = SMat(z3.Const(I.path.names.fresh("fd"), Mat), cells=cells, shape=(wrap(n), wrap(cols)), ident=object())
+        return SObj(cls, {"data": data, "name": name, "_kwargs": None}, "from_dict")
+
+
+class ConstructSensors(Contract):
+    """ExtendedKalmanFilter._construct_sensors(state_model, sensor_models, sensor_noises, calibration_map, config)
+    Verified for two generic sensors (the per-sensor loop bodies do not interact: exact unrolling over the sensor keys),
+    each with a symbolic number of readings; the two dicts list the sensors in different orders.
+    requires sensor_noises[s] names exactly the readings of s (C14).
+    ensures  for each sensor s: sensor_noises[s].data is m_s x m_s with noise[reading i] at (i,i) (readings sorted by name) and 0 elsewhere;
+             _impl_sensor_jacobians[s] is a block over arglist_state + arglist_calibration whose statement r*(n+c)+q is
+             diff(sensor_model[s][reading r], (AS+ACal)[q]); innovations / sensor_prediction_uncertainty start empty."""
+
+    key = "formak.python:ExtendedKalmanFilter._construct_sensors"
+    prefix = "C05.py._construct_sensors"
+    inline = ("formak.python:BasicBlock.__len__", "formak.python:SensorModel.__len__")
+
+    def setup(self, I):
+        from pvc.interp import PyDict
+        from pvc.symtheory import SDictV, card_f, real_wrap
+
+        P = I.path
+        P.ghost["site"] = self.prefix
+        ui = UiModelShape(I)
+        cm = SDictV(P, "calibration_map", Sym, z3.RealSort(), SymV, real_wrap)
+        keys = [StrV(z3.Const(f"sensor_key_{i}", Str)) for i in range(2)]
+        P.assume(keys[0].z != keys[1].z)
+        sms, sns = PyDict(), PyDict()
+        sms.identity_keys = sns.identity_keys = True
+        models, noises = [], []
+        for i, kx in enumerate(keys):
+            sm = SDictV(P, f"sensor_model_{i}", Str, Expr, StrV, ExprV)
+            nz = SDictV(P, f"sensor_noise_{i}", Str, z3.RealSort(), StrV, real_wrap)
+            x = z3.Const(f"rk{i}", Str)
+            P.facts.append(z3.ForAll([x], nz.has(x) == sm.has(x), patterns=[nz.has(x)]))
+            P.facts.append(z3.ForAll([x], nz.has(x) == sm.has(x), patterns=[sm.has(x)]))
+            P.assume(nz.n == sm.n)
+            models.append(sm)
+            noises.append(nz)
+        sms.d[keys[0]] = models[0]
+        sms.d[keys[1]] = models[1]
+        sns.d[keys[1]] = noises[1]
+        sns.d[keys[0]] = noises[0]
+        mod = I.load_module("formak.python")
+        cls = I.module_attr(mod, "ExtendedKalmanFilter")
+        ekf = SObj(cls, {"state_size": SInt(card_f(ui.S.term)), "control_size": SInt(card_f(ui.U.term)), "calibration_size": SInt(card_f(ui.Cal.term)), "arglist_state": ui.S.sorted_seq(), "arglist_control": ui.U.sorted_seq(), "arglist_calibration": ui.Cal.sorted_seq()}, "ekf")
+        return Call([ekf], {"state_model": ui.obj, "sensor_models": sms, "sensor_noises": sns, "calibration_map": cm, "config": SObj("Config", {}, "config")}, ekf=ekf, ui=ui, keys=keys, models=models, noises=noises)
+
+    def post(self, I, call, outcome):
+        from pvc.interp import PyDict, PyList, as_seq2
+        from pvc.symtheory import card_f, srt_f
+
+        P = I.path
+        pre = self.prefix
+        if outcome[0] == "raise":
+            P.oblige(f"{pre}.no_exception_for_matching_noise", z3.BoolVal(False), note=f"raises {outcome[1]}")
+            return
+        ekf, ui = call.ekf, call.ui
+        n, c = card_f(ui.S.term), card_f(ui.Cal.term)
+        X = lambda t: z3.If(t < n, srt_f(ui.S.term, t), srt_f(ui.Cal.term, t - n))
+        i, j = z3.Int("i_any"), z3.Int("j_any")
+        sn, sj, smd = ekf.fields.get("sensor_noises"), ekf.fields.get("_impl_sensor_jacobians"), ekf.fields.get("sensor_models")
+        ok = all(isinstance(d, PyDict) for d in (sn, sj, smd))
+        P.oblige(f"{pre}.dicts_built", z3.BoolVal(ok))
+        if not ok:
+            return
+        for idx, (kx, sm, nz) in enumerate(zip(call.keys, call.models, call.noises)):
+            tag = f"sensor{idx}"
+            sk = sm.sorted_key_fn(P)
+            m = sm.n
+            present = kx in sn.d and kx in sj.d and kx in smd.d
+            P.oblige(f"{pre}.{tag}.entries_under_sensor_key", z3.BoolVal(present))
+            if not present:
+                continue
+            q = sn.d[kx]
+            okq = isinstance(q, SObj) and isinstance(q.fields.get("data"), SMat)
+            P.oblige(f"{pre}.{tag}.noise_container", z3.BoolVal(okq))
+            if okq:
+                d = q.fields["data"]
+                want = z3.If(i == j, nz.get(sk(i)), z3.RealVal(0))
+                P.oblige(f"{pre}.{tag}.noise_diagonal_by_reading_name", z3.And(to_int(d.rows()) == m, to_int(d.cols()) == m, z3.Implies(z3.And(i >= 0, i < m, j >= 0, j < m), d.el(i, j) == want)))
+            blk = sj.d[kx]
+            okb = isinstance(blk, SObj) and isinstance(blk.fields.get("_exprs"), (SSeq, PyList))
+            P.oblige(f"{pre}.{tag}.jacobian_block", z3.BoolVal(okb))
+            if okb:
+                ex = as_seq2(blk.fields["_exprs"])
+                w = n + c
+                for rm in P.ghost.get("row_major", []):
+                    P.define(rm.law(i, j), "D-diff: iterating a sympy Matrix is row-major")
+                P.oblige(f"{pre}.{tag}.jacobian_length", ex.len_z() == m * w)
+                P.oblige(f"{pre}.{tag}.jacobian_row_major_layout", z3.Implies(z3.And(i >= 0, i < m, j >= 0, j < w), ex.at(i * w + j).z == diff_f(sm.get(sk(i)), X(j))))
+                al = blk.fields["_arglist"]
+                P.oblige(f"{pre}.{tag}.jacobian_arglist", z3.And(al.len_z() == w, z3.Implies(z3.And(j >= 0, j < w), al.at(j).z == X(j))))
+        for fld in ("innovations", "sensor_prediction_uncertainty"):
+            v = ekf.fields.get(fld)
+            P.oblige(f"{pre}.{fld}_start_empty", z3.BoolVal(isinstance(v, PyDict) and not v.d))
+
+
+def sensors_callees():
+    c = dict(common.COMMON_APPLY)
+    c[BasicBlockInit.key] = BasicBlockInit()
+    c[SensorModelInitApply.key] = SensorModelInitApply()
+    c[FromDictApply.key] = FromDictApply()
+    return c
